@@ -19,6 +19,8 @@ def py_miter(l, r):
     try:
         from cirbo.sat.miter import build_miter
         a, b = circ_from_json(l), circ_from_json(r)
+        if l == r:
+            b = a          # a circuit against itself: the very same object as both operands
         ja, jb = circ_to_json(a), circ_to_json(b)
         m = build_miter(a, b)
         if circ_to_json(a) != ja or circ_to_json(b) != jb:
